@@ -861,6 +861,30 @@ def run(ctx):
         ctx.note("cli_invalid_list_scenarios", ncli)
         # ---- 5. binding B, verdicts ----
         b_report(ctx, recs, fut_b.result())
+    # ---- 6. KeyMap.tla: the lookup table behind remap_columns as a state machine (update / resort histories on one object) ----
+    from .. import keymap
+    ctx.tlc("MC_KeyMap", "MC_KeyMap.cfg", workers=8, label="design: KeyMap machine (PosExact, FirstWins, Counts, Sorted, FirstSeenOrder)")
+    for vc, inv in (("MC_KeyMap_vac1.cfg", "NeverRepeats"), ("MC_KeyMap_vac2.cfg", "NeverResorted")):
+        rv = ctx.tlc("MC_KeyMap", vc, workers=2, expect_ok=False, label="vacuity guard: %s must be violated" % inv)
+        if not rv.violated:
+            raise tlc.TLCFailure("KeyMap.tla: %s should be violated" % inv)
+    kjobs = []
+    for keys, order, fed, kcols, take in ((("Keys1", "Order1", "KeysFed1", ["a"], 6 if quick else None)),
+                                          (("Keys2", "Order2", "Keys2", ["a", "b"], None if quick else 3))):
+        kcfg = ctx.cfg("MC_KeyMap_gen.cfg", ("Keys <- Keys1", "Keys <- " + keys), ("KeyOrder <- Order1", "KeyOrder <- " + order),
+                       ("FedKeys <- KeysFed1", "FedKeys <- " + fed),
+                       ("MaxRows = 2", "MaxRows = 1" if (quick and keys == "Keys2") else "MaxRows = 2"))
+        rk = ctx.tlc("MC_KeyMap", kcfg, workers=1, timeout=1800, label="KeyMap histories (%s)" % keys)
+        order_v = {"Order1": [["x"], ["y"], ["z"]], "Order2": [["a", "2"], ["x", "1"], ["x", "2"]]}[order]
+        kjobs += keymap.jobs_from(rk.json_lines, kcols, order_v, 3, ctx.seed, take)
+    with mpctx.Pool(14) as pool:
+        kres = pool.map(keymap.run_history, kjobs, chunksize=8)
+    for job, probs in zip(kjobs, kres):
+        ctx.case("keymap:" + json.dumps(job["hist"], sort_keys=True), nontrivial=True)
+        ctx.traces += 1
+        for kind, text in probs:
+            ctx.violation(kind, text, {"mode": "keymap", "job": job})
+    ctx.note("keymap_histories_replayed", len(kjobs))
     for j, c in [concs[i] for i in (len(concs) // 7, len(concs) // 2, len(concs) - 5) if i < len(concs)]:
         ctx.sample({"ops": c["ops"], "tables": c["tables"], "order": c["order"], "valid": c["valid"],
                     "expected": [_show(e) for e in c["expected"]], "flavour": c["flavour"]})
@@ -920,6 +944,10 @@ def replay(obj):
     _G["validator"] = RemodelerValidator()
     try:
         mode = obj.get("mode", "case")
+        if mode == "keymap":
+            from .. import keymap
+            p = keymap.run_history(obj["job"])
+            return (not p), "; ".join(t for _, t in p) or "agrees with KeyMap.tla"
         if mode == "cli":
             outcome, changed, extra = cli_never_partial(obj, work)
             bad = bool(changed or extra) or not outcome.startswith("ValueError")
